@@ -34,7 +34,7 @@ PID = "C16"
 LEAN_COMPONENT = "timeout"
 PROPS_MODULE = "Haiway.Props.C16"
 ANCHORS = ["src/haiway/helpers/timeouted.py"]
-KINDS = ["val", "exc", "base", "self", "fval", "fexc", "fbase"]
+KINDS = ["val", "exc", "base", "self", "fval", "fexc", "fbase", "xval", "cval"]
 BASE_KINDS = KINDS[:4]
 RULE = ("case = (function delay d, how it ends in {value, Exception, BaseException subclass, raises CancelledError itself}, "
         "swallows first cancellation or not, timeout D, caller cancellation instant c or none) in exact virtual time; "
@@ -154,6 +154,7 @@ def corpus():
         "d=1 k=fexc ig=0 D=3 c=-",    # falsy exception object / falsy result
         "d=1 k=fbase ig=0 D=3 c=-",
         "d=0 k=fval ig=0 D=3 c=-",
+        "d=1 k=xval ig=0 D=3 c=-", "d=0 k=cval ig=0 D=3 c=-", "d=1 k=cval ig=0 D=3 c=-", "d=1 k=xval ig=0 D=3 c=- st=50",
         "multi D=3 / s=0 d=1 k=val ig=0 c=- / s=1 d=9 k=val ig=0 c=-",   # early call ends while a later one is pending
         "multi D=3 / s=0 d=9 k=val ig=0 c=- / s=1 d=1 k=val ig=0 c=-",
         "multi D=2 / s=0 d=1 k=exc ig=0 c=- / s=0 d=5 k=self ig=1 c=- / s=1 d=0 k=base ig=0 c=0",
@@ -232,7 +233,11 @@ def single_of(dl, call) -> str:
     return fmt(d, k, ig, dl, c)
 
 
-VALUE_OF_KIND = {"val": "v", "fval": 0}
+# values the function returns: a string, a falsy value, an exception instance, a CancelledError instance (data, not raised:
+# e.g. a collected error from gather(..., return_exceptions=True)) - the caller must get that very object back
+XVAL = ValueError("returned, not raised")
+CVAL = asyncio.CancelledError("returned, not raised")
+VALUE_OF_KIND = {"val": "v", "fval": 0, "xval": XVAL, "cval": CVAL}
 
 
 def run_real(case: str) -> str:
@@ -398,7 +403,8 @@ def run_real(case: str) -> str:
                     if exc is None:
                         r = caller.result()
                         want = VALUE_OF_KIND.get(kind, "v")
-                        o = "res" if (type(r) is type(want) and r == want) else "other:value"
+                        o = "res" if (type(r) is type(want) and (r is want or (kind not in ("xval", "cval") and r == want))) \
+                            else "other:value"
                     elif type(exc) is (FE if kind == "fexc" else E):
                         o = "exc"
                     elif type(exc) is (FBE if kind == "fbase" else BE):
@@ -475,7 +481,8 @@ def canon(case: str, out: str) -> str:
 # ---------------------------------------------------------------------------------------------
 # the property, on the implementation's observation
 
-OUTCOME_OF_KIND = {"val": "res", "exc": "exc", "base": "base", "self": "cancelled", "fval": "res", "fexc": "exc", "fbase": "base"}
+OUTCOME_OF_KIND = {"val": "res", "exc": "exc", "base": "base", "self": "cancelled", "fval": "res", "fexc": "exc", "fbase": "base",
+                   "xval": "res", "cval": "res"}
 
 
 def fields(out: str) -> dict[str, str] | None:
